@@ -6,6 +6,7 @@ import (
 	"math"
 	"reflect"
 	"strconv"
+	"strings"
 	"unicode/utf16"
 )
 
@@ -897,6 +898,20 @@ func (v Value) toReflectValue(typ reflect.Type) (reflect.Value, error) {
 
 	// FIXME Should this end up as a TypeError?
 	panic(fmt.Errorf("invalid conversion of %v (%v) to reflect.Type: %v", v.kind, v, typ))
+}
+
+// panicConversionError raises the error of a failed element/key conversion as the
+// JavaScript RangeError/TypeError its text names, so that scripts can catch it.
+func panicConversionError(err error) {
+	msg := err.Error()
+	name := "TypeError"
+	switch {
+	case strings.HasPrefix(msg, "RangeError: "):
+		name, msg = "RangeError", msg[len("RangeError: "):]
+	case strings.HasPrefix(msg, "TypeError: "):
+		msg = msg[len("TypeError: "):]
+	}
+	panic(newError(nil, name, 0, "%s", msg))
 }
 
 func stringToReflectValue(value string, kind reflect.Kind) (reflect.Value, error) {
